@@ -6,7 +6,7 @@
    dispatcher / sender machine of hq.producer, hq.finisher, lq.producer, lq.finisher; the label
    carries every scheduling choice, timer tick and queue answer), Queue/LqDb.v (lq.db table). *)
 From Coq Require Import List Bool Arith ZArith NArith Permutation.
-From ZenoV Require Import Lib.Hex Queue.HopsPath Queue.Batcher Queue.BatcherProofs
+From ZenoV Require Import Lib.Hex Queue.HopsPath Queue.Json Queue.Batcher Queue.BatcherProofs
   Queue.LqDb Queue.LqDbProofs Queue.Fields Queue.FieldsProofs.
 Import ListNotations.
 
@@ -20,15 +20,24 @@ Proof. exact hops_roundtrip_lemma. Qed.
 Print Assumptions C15_hops_roundtrip.
 
 (* For every parent page, hop count, outlink text and queue-assigned id: the outlink comes back
-   from crawl HQ and from the local queue as a seed with text unchanged, via = parent page,
-   hops = parent + 1, whatever status the row has meanwhile. *)
+   as a seed with text unchanged, via = parent page, hops = parent + 1 - through crawl HQ (JSON
+   wire + path encoding) whenever text and parent are well-formed UTF-8, through the local queue
+   for every byte string and whatever status the row has meanwhile. *)
 Theorem C15_outlink_fields_kept : forall parent h text id,
   let o := mk_outlink parent h text in
-  seed_of_hq (hq_assign id (hq_of_outlink o)) = SD id text parent (h + 1)
+  (valid_utf8 text = true -> valid_utf8 parent = true ->
+     seed_of_hq (hq_assign id (hq_wire (hq_of_outlink o))) = SD id text parent (h + 1))
   /\ seed_of_row (row_of_url (url_of_outlink id o)) = SD id text parent (h + 1)
   /\ (forall st, seed_of_row (Row id text parent (Z.of_N (h + 1)) st) = SD id text parent (h + 1)).
 Proof. exact outlink_fields_kept_lemma. Qed.
 Print Assumptions C15_outlink_fields_kept.
+
+(* ... and the restriction is needed: for texts that are not well-formed UTF-8 the statement is
+   false for the code as it is (known finding: json.Marshal replaces each offending byte by
+   U+FFFD on the way to crawl HQ). *)
+Theorem C15_outlink_text_via_hq_refuted_for_invalid_utf8 : ~ outlink_fields_kept_hq_stmt.
+Proof. exact outlink_fields_kept_hq_refuted. Qed.
+Print Assumptions C15_outlink_text_via_hq_refuted_for_invalid_utf8.
 
 (* No drop, nothing invented - for every configuration (batch size, channel capacity, number of
    senders, hq or lq-producer mode), every item type and EVERY label sequence (all interleavings
